@@ -125,7 +125,7 @@ impl AggregatorRunner {
     //@ rewrite /async fn open_signer_registration_round\(&self,/ => /fn open_signer_registration_round(&mut self,/
     //@ rewrite /\.await/ => //
     //@ rewrite /StdResult<\(\)>/ => /Result<(), StdError>/
-    //@ rewrite? /(?s)debug!\(.*?\);[ \t]*\n/ => //
+    //@ rewrite? /(?s)(?:slog::)?(?:debug|info|warn|trace|error)!\(.*?\);[ \t]*\n/ => //
     //@ rewrite /(?s)(self\s*\.dependencies\s*\.stake_store\s*\.get_stakes\([^)]*\)\s*\?)\s*\.unwrap_or_default\(\)/ => /unwrap_or_default_distribution(\1)/
     //@ spec requires new_time_point.epoch.0 < u64::MAX
     //@ spec ensures ret is Ok ==> ({
